@@ -239,3 +239,21 @@ def ecrun(job):
         return 'ok %s %s D%d P%d M%d' % (vlib.hexs(er7), vlib.hexs(gs), d, pe, ml)
     except Exception as e:  # noqa
         return 'exc2 ' + vlib.exc_name(e)
+
+
+def mllp(job):
+    """(types, raising, err, events) with events = [('c', bytes) | ('t',) | ('e',)] -> canonical outcome line"""
+    import mllpfake
+    types, raising, err, events = job
+    try:
+        log, out, closed = mllpfake.run_script(types, raising, err, events)
+    except Exception as e:  # noqa
+        return 'exc ' + vlib.exc_name(e)
+    invs = []
+    for x in log:
+        if x.startswith('H:'):
+            invs.append('H:' + vlib.hexs(x[2:]))
+        else:
+            invs.append(x)
+    # a raising handler is logged, then the ERR handler (if any)
+    return 'inv=%s reply=%s closed=%d' % (','.join(invs), vlib.hexs(out.decode('utf-8')) if out else '-', 1 if closed else 0)
